@@ -607,6 +607,16 @@ def relayStrip (C : Crypto) (prefixLen saltLen : Nat) (ipsk nextPsk : Bytes) (wi
     some (wire.take (prefixLen + saltLen) ++ wire.drop (prefixLen + saltLen + IdentityHeaderLength))
   else none
 
+/-- the chain of SIP023 relays in front of the server: hop `j` holds `ipsks[j]`, expects the first
+identity header to name `ipsks[j+1]`, strips it and forwards; the holder of the last iPSK is the
+server itself. `none` if some hop does not find the next hop's key hash. -/
+def relayAll (C : Crypto) (prefixLen saltLen : Nat) : List Bytes → Bytes → Option Bytes
+  | i0 :: i1 :: rest, w =>
+    match relayStrip C prefixLen saltLen i0 i1 w with
+    | some w' => relayAll C prefixLen saltLen (i1 :: rest) w'
+    | none => none
+  | _, w => some w
+
 structure User where
   name : String
   psk : Bytes
